@@ -574,6 +574,20 @@ mut('c15-leq-oldest', 'C15', 'C15.TABLE[find_appropriate_item:LeqEpoch]', txn, '
 mut('c19-blob-pairs', 'C19', 'C19.BLOB.pairs', 'akd/src/local_auditing.rs', '''        let current_hash = hashes[i + 1];
         // The epoch provided''', '''        let current_hash = hashes[i];
         // The epoch provided''', 'blob carries the wrong end hash')
+mut('c12-log-refill', 'C12', 'C12.OWN.log_writes_only_when_active', mgr, '''        let _epoch = match records.last() {''', '''        if records.len() > 1_000_000 {
+            // too large for a single commit: keep the changes for a later attempt
+            self.transaction.batch_set(&records);
+            return Ok(0);
+        }
+        let _epoch = match records.last() {''', 'records handed back to the log after the flag was lowered (seed C12-r2-b)', also=['C10', 'C15'])
+mut('c20-tomb-reject', 'C20', 'C20.S2.tombstone_never_rejects', hist, '''        (_, akd_value) => {
+            // No tombstone so hash the value found, and compare to the existence proof's value''', '''        (HistoryVerificationParams::Default { .. }, bytes) if bytes.0 == crate::TOMBSTONE => {
+            return Err(VerificationError::HistoryProof(
+                "Encountered a tombstoned value, but missing values are not allowed".to_string(),
+            ));
+        }
+        (_, akd_value) => {
+            // No tombstone so hash the value found, and compare to the existence proof's value''', 'empty values rejected in Default mode (seed C20-r2-a)', also=['C07'])
 
 out = [m for m in M if not m.get('disabled')]
 json.dump({'mutants': out}, open(os.path.join(os.path.dirname(os.path.abspath(__file__)), 'mutants.json'), 'w'), indent=1)
